@@ -75,3 +75,375 @@ proof fn lemma_nbr_seq_nonempty(dag: &GraphType, n: usize, d: Direction, s: Seq<
         }
     }
 }
+
+// ---- phases of the per-job lifecycle (from C17 / C05 / C02: "offered", "running", "executed successfully")
+spec fn pre_offer(s: JobState) -> bool {
+    match s {
+        JobState::Always(x) => x == JobStateAlways::Undetermined,
+        JobState::Output(x) => x is NotReady,
+        JobState::Ephemeral(x) => x is NotReady || x == JobStateEphemeral::ReadyButDelayed,
+    }
+}
+spec fn is_ready(s: JobState) -> bool {
+    match s {
+        JobState::Always(x) => x == JobStateAlways::ReadyToRun,
+        JobState::Output(x) => x == JobStateOutput::ReadyToRun,
+        JobState::Ephemeral(x) => x is ReadyToRun,
+    }
+}
+spec fn is_running(s: JobState) -> bool {
+    match s {
+        JobState::Always(x) => x == JobStateAlways::Running,
+        JobState::Output(x) => x == JobStateOutput::Running,
+        JobState::Ephemeral(x) => x is Running,
+    }
+}
+spec fn eph_success(x: JobStateEphemeral) -> bool {
+    x == JobStateEphemeral::FinishedSuccessNotReadyForCleanup
+        || x == JobStateEphemeral::FinishedSuccessReadyForCleanup
+        || x == JobStateEphemeral::FinishedSuccessCleanedUp
+        || x == JobStateEphemeral::FinishedSuccessSkipCleanup
+}
+/// executed successfully
+spec fn ran_ok(s: JobState) -> bool {
+    match s {
+        JobState::Always(x) => x == JobStateAlways::FinishedSuccess,
+        JobState::Output(x) => x == JobStateOutput::FinishedSuccess,
+        JobState::Ephemeral(x) => eph_success(x),
+    }
+}
+spec fn is_exec_failure(s: JobState) -> bool {
+    s == JobState::Always(JobStateAlways::FinishedFailure)
+        || s == JobState::Output(JobStateOutput::FinishedFailure)
+        || s == JobState::Ephemeral(JobStateEphemeral::FinishedFailure)
+}
+spec fn is_aborted(s: JobState) -> bool {
+    s == JobState::Always(JobStateAlways::FinishedAborted)
+        || s == JobState::Output(JobStateOutput::FinishedAborted)
+        || s == JobState::Ephemeral(JobStateEphemeral::FinishedAborted)
+}
+spec fn is_skipped(s: JobState) -> bool {
+    s == JobState::Output(JobStateOutput::FinishedSkipped)
+        || s == JobState::Ephemeral(JobStateEphemeral::FinishedSkipped)
+}
+spec fn same_kind(s: JobState, t: JobState) -> bool {
+    (s is Always && t is Always) || (s is Output && t is Output) || (s is Ephemeral && t is Ephemeral)
+}
+spec fn running_of(s: JobState) -> JobState {
+    match s {
+        JobState::Always(_) => JobState::Always(JobStateAlways::Running),
+        JobState::Output(_) => JobState::Output(JobStateOutput::Running),
+        JobState::Ephemeral(JobStateEphemeral::ReadyToRun(v)) => JobState::Ephemeral(JobStateEphemeral::Running(v)),
+        JobState::Ephemeral(_) => s,
+    }
+}
+
+/// Lifecycle order (C17): `lc_le(s, t)` = a job may be in state s now and in state t later.
+/// Written from the statement: kind never changes; offered at most once (nothing leads back to an
+/// offered state); finished never becomes unfinished; executed-successfully never becomes
+/// failed / upstream-failed.  It is the reflexive-transitive closure of
+/// pre-offer -> {pre-offer, offered, skipped, upstream-failed, aborted}; offered -> {running, aborted};
+/// running -> {success, failure, aborted}; Output skipped -> upstream-failed;
+/// Ephemeral success: NotReadyForCleanup -> {ReadyForCleanup, SkipCleanup}; ReadyForCleanup -> CleanedUp.
+spec fn lc_le(s: JobState, t: JobState) -> bool {
+    same_kind(s, t) && (s == t
+        || pre_offer(s)
+        || (is_ready(s) && (is_running(t) || ran_ok(t) || is_exec_failure(t) || is_aborted(t)))
+        || (is_running(s) && (ran_ok(t) || is_exec_failure(t) || is_aborted(t)))
+        || (s == JobState::Output(JobStateOutput::FinishedSkipped)
+            && t == JobState::Output(JobStateOutput::FinishedUpstreamFailure))
+        || (s == JobState::Ephemeral(JobStateEphemeral::FinishedSuccessNotReadyForCleanup)
+            && (t == JobState::Ephemeral(JobStateEphemeral::FinishedSuccessReadyForCleanup)
+                || t == JobState::Ephemeral(JobStateEphemeral::FinishedSuccessSkipCleanup)
+                || t == JobState::Ephemeral(JobStateEphemeral::FinishedSuccessCleanedUp)))
+        || (s == JobState::Ephemeral(JobStateEphemeral::FinishedSuccessReadyForCleanup)
+            && t == JobState::Ephemeral(JobStateEphemeral::FinishedSuccessCleanedUp)))
+}
+
+/// the single transitions the statement allows (one state write)
+spec fn lc_step(s: JobState, t: JobState) -> bool {
+    same_kind(s, t) && (
+        (pre_offer(s) && (pre_offer(t) || is_ready(t) || is_skipped(t) || upfailed(t) || is_aborted(t)))
+        || (is_ready(s) && (t == running_of(s) || is_aborted(t)))
+        || (is_running(s) && (is_exec_failure(t) || is_aborted(t)
+            || t == JobState::Always(JobStateAlways::FinishedSuccess)
+            || t == JobState::Output(JobStateOutput::FinishedSuccess)
+            || t == JobState::Ephemeral(JobStateEphemeral::FinishedSuccessNotReadyForCleanup)))
+        || (s == JobState::Output(JobStateOutput::FinishedSkipped)
+            && t == JobState::Output(JobStateOutput::FinishedUpstreamFailure))
+        || (s == JobState::Ephemeral(JobStateEphemeral::FinishedSuccessNotReadyForCleanup)
+            && (t == JobState::Ephemeral(JobStateEphemeral::FinishedSuccessReadyForCleanup)
+                || t == JobState::Ephemeral(JobStateEphemeral::FinishedSuccessSkipCleanup)))
+        || (s == JobState::Ephemeral(JobStateEphemeral::FinishedSuccessReadyForCleanup)
+            && t == JobState::Ephemeral(JobStateEphemeral::FinishedSuccessCleanedUp)))
+}
+
+proof fn lemma_lc_order(s: JobState, t: JobState, u: JobState)
+    ensures
+        lc_le(s, s),
+        lc_step(s, t) ==> lc_le(s, t),
+        lc_le(s, t) && lc_le(t, u) ==> lc_le(s, u),
+        lc_le(s, t) && lc_le(t, s) ==> s == t || (pre_offer(s) && pre_offer(t)),
+{
+}
+
+/// consequences of the order that the property statements need
+proof fn lemma_lc_consequences(s: JobState, t: JobState)
+    requires lc_le(s, t),
+    ensures
+        same_kind(s, t),
+        finished(s) ==> finished(t),
+        ran_ok(s) ==> ran_ok(t),
+        ran_ok(s) ==> !failed(t),
+        is_ready(t) && s != t ==> pre_offer(s),
+        upfailed(t) ==> !is_ready(s) && !is_running(s) && !ran_ok(s),
+        is_running(t) ==> pre_offer(s) || is_ready(s) || s == t,
+{
+}
+
+// ---- the evaluator's abstract view and representation invariant
+spec fn ids_wf(jobs: Seq<NodeInfo>, m: Map<String, usize>) -> bool {
+    &&& forall|i: int| 0 <= i < jobs.len() ==> #[trigger] m.contains_key(jobs[i].job_id)
+            && m[jobs[i].job_id] == i && valid_id(jobs[i].job_id@)
+    &&& forall|k: String| #[trigger] m.contains_key(k) ==> m[k] < jobs.len() && jobs[m[k] as int].job_id == k
+}
+
+spec fn ready_set_wf(jobs: Seq<NodeInfo>, ready: Set<String>, m: Map<String, usize>) -> bool {
+    &&& forall|i: int| 0 <= i < jobs.len() ==> (is_ready(#[trigger] jobs[i].state) <==> ready.contains(jobs[i].job_id))
+    &&& forall|k: String| #[trigger] ready.contains(k) ==> m.contains_key(k)
+}
+
+spec fn cleanup_set_wf(jobs: Seq<NodeInfo>, cleanup: Set<String>, m: Map<String, usize>) -> bool {
+    &&& forall|i: int| 0 <= i < jobs.len() ==> (
+            (#[trigger] jobs[i].state == JobState::Ephemeral(JobStateEphemeral::FinishedSuccessReadyForCleanup))
+            <==> cleanup.contains(jobs[i].job_id))
+    &&& forall|k: String| #[trigger] cleanup.contains(k) ==> m.contains_key(k)
+}
+
+/// W5: history_output against state
+spec fn out_wf_one(j: NodeInfo) -> bool {
+    &&& (ran_ok(j.state) || j.state == JobState::Output(JobStateOutput::FinishedSkipped) ==> j.history_output is Some)
+    &&& (!finished(j.state) || is_exec_failure(j.state) || is_aborted(j.state)
+            || j.state == JobState::Always(JobStateAlways::FinishedUpstreamFailure)
+            || j.state == JobState::Ephemeral(JobStateEphemeral::FinishedUpstreamFailure)
+        ==> j.history_output is None)
+}
+spec fn out_wf(jobs: Seq<NodeInfo>) -> bool {
+    forall|i: int| 0 <= i < jobs.len() ==> out_wf_one(#[trigger] jobs[i])
+}
+
+/// two-state relation of every mutating operation on the job table
+spec fn jobs_step(a: Seq<NodeInfo>, b: Seq<NodeInfo>) -> bool {
+    &&& a.len() == b.len()
+    &&& forall|i: int| 0 <= i < a.len() ==> (#[trigger] b[i]).job_id == a[i].job_id
+    &&& forall|i: int| 0 <= i < a.len() ==> lc_le(a[i].state, (#[trigger] b[i]).state)
+    &&& forall|i: int| 0 <= i < a.len() ==> (a[i].history_output is Some ==> (#[trigger] b[i]).history_output == a[i].history_output)
+}
+
+proof fn lemma_jobs_step_refl(a: Seq<NodeInfo>)
+    ensures jobs_step(a, a),
+{
+    assert forall|i: int| 0 <= i < a.len() implies lc_le(a[i].state, a[i].state) by { lemma_lc_order(a[i].state, a[i].state, a[i].state); }
+}
+
+proof fn lemma_jobs_step_trans(a: Seq<NodeInfo>, b: Seq<NodeInfo>, c: Seq<NodeInfo>)
+    requires jobs_step(a, b), jobs_step(b, c),
+    ensures jobs_step(a, c),
+{
+    assert forall|i: int| 0 <= i < a.len() implies lc_le(a[i].state, (#[trigger] c[i]).state) by {
+        assert(lc_le(a[i].state, b[i].state));
+        lemma_lc_order(a[i].state, b[i].state, c[i].state);
+    }
+    assert forall|i: int| 0 <= i < a.len() implies (#[trigger] c[i]).job_id == a[i].job_id by {
+        assert(b[i].job_id == a[i].job_id);
+    }
+    assert forall|i: int| 0 <= i < a.len() implies (a[i].history_output is Some ==> (#[trigger] c[i]).history_output == a[i].history_output) by {
+        assert(a[i].history_output is Some ==> b[i].history_output == a[i].history_output);
+    }
+}
+
+impl<T: PPGEvaluatorStrategy> PPGEvaluator<T> {
+    spec fn started(&self) -> bool { !(self.already_started is NotStarted) }
+
+    /// representation invariant without the "queue is empty" clause (holds between signals)
+    spec fn wf_core(&self) -> bool {
+        &&& ids_wf(self.jobs@, self.job_id_to_node_idx@)
+        &&& edges_in_range(&self.dag, self.jobs@.len())
+        &&& ready_set_wf(self.jobs@, self.jobs_ready_to_run@, self.job_id_to_node_idx@)
+        &&& cleanup_set_wf(self.jobs@, self.jobs_ready_for_cleanup@, self.job_id_to_node_idx@)
+        &&& out_wf(self.jobs@)
+        &&& (self.already_started is Finished ==> forall|i: int| 0 <= i < self.jobs@.len() ==> finished(#[trigger] self.jobs@[i].state))
+    }
+
+    /// representation invariant between public calls
+    spec fn wf(&self) -> bool {
+        &&& self.wf_core()
+        &&& self.signals@.len() == 0
+    }
+
+    /// every observable aspect equal (C20).  Vec/HashMap are compared by view: Verus has no
+    /// extensional equality on the containers themselves.
+    spec fn obs_eq(&self, o: &Self) -> bool {
+        &&& self.jobs@ =~= o.jobs@
+        &&& self.dag == o.dag
+        &&& self.job_id_to_node_idx@ =~= o.job_id_to_node_idx@
+        &&& self.history@ =~= o.history@
+        &&& self.already_started == o.already_started
+        &&& self.jobs_ready_to_run@ =~= o.jobs_ready_to_run@
+        &&& self.jobs_ready_for_cleanup@ =~= o.jobs_ready_for_cleanup@
+        &&& self.topo == o.topo
+        &&& self.signals@ =~= o.signals@
+        &&& self.gen == o.gen
+    }
+
+    spec fn idx_of(&self, id: Seq<char>) -> int {
+        idx_of_seq(self.jobs@, id)
+    }
+
+    spec fn knows(&self, id: Seq<char>) -> bool {
+        exists|i: int| 0 <= i < self.jobs@.len() && #[trigger] self.jobs@[i].job_id@ == id
+    }
+}
+
+spec fn idx_of_seq(jobs: Seq<NodeInfo>, id: Seq<char>) -> int {
+    choose|i: int| 0 <= i < jobs.len() && jobs[i].job_id@ == id
+}
+
+/// looking a known id up in job_id_to_node_idx yields its index
+proof fn lemma_lookup(jobs: Seq<NodeInfo>, m: Map<String, usize>, id: Seq<char>)
+    requires
+        ids_wf(jobs, m),
+        exists|i: int| 0 <= i < jobs.len() && #[trigger] jobs[i].job_id@ == id,
+    ensures
+        0 <= idx_of_seq(jobs, id) < jobs.len(),
+        jobs[idx_of_seq(jobs, id)].job_id@ == id,
+        forall|s: String| #![trigger m.contains_key(s)] s@ == id ==> m.contains_key(s) && m[s] == idx_of_seq(jobs, id),
+        forall|i: int| 0 <= i < jobs.len() && #[trigger] jobs[i].job_id@ == id ==> i == idx_of_seq(jobs, id),
+{
+    broadcast use group_verif_axioms;
+    let g = idx_of_seq(jobs, id);
+    assert(m.contains_key(jobs[g].job_id));
+    assert forall|s: String| s@ == id implies #[trigger] m.contains_key(s) && m[s] == g by {
+        assert(s == jobs[g].job_id);
+    }
+    assert forall|i: int| 0 <= i < jobs.len() && #[trigger] jobs[i].job_id@ == id implies i == g by {
+        assert(jobs[i].job_id == jobs[g].job_id);
+        assert(m.contains_key(jobs[i].job_id));
+    }
+}
+
+/// `post` is `pre` with only entry n changed, id kept
+spec fn one_changed(pre: Seq<NodeInfo>, post: Seq<NodeInfo>, n: int) -> bool {
+    &&& 0 <= n < pre.len()
+    &&& post.len() == pre.len()
+    &&& forall|k: int| 0 <= k < pre.len() && k != n ==> #[trigger] post[k] == pre[k]
+    &&& post[n].job_id == pre[n].job_id
+}
+
+proof fn lemma_ids_after_write(pre: Seq<NodeInfo>, post: Seq<NodeInfo>, m: Map<String, usize>, n: int)
+    requires ids_wf(pre, m), one_changed(pre, post, n),
+    ensures ids_wf(post, m),
+{
+    assert forall|i: int| 0 <= i < post.len() implies #[trigger] m.contains_key(post[i].job_id)
+            && m[post[i].job_id] == i && valid_id(post[i].job_id@) by {
+        assert(post[i].job_id == pre[i].job_id);
+        assert(m.contains_key(pre[i].job_id));
+    }
+    assert forall|k: String| #[trigger] m.contains_key(k) implies m[k] < post.len() && post[m[k] as int].job_id == k by {
+        assert(post[m[k] as int].job_id == pre[m[k] as int].job_id);
+    }
+}
+
+/// ids are unique
+proof fn lemma_ids_unique(jobs: Seq<NodeInfo>, m: Map<String, usize>, i: int, k: int)
+    requires ids_wf(jobs, m), 0 <= i < jobs.len(), 0 <= k < jobs.len(), jobs[i].job_id == jobs[k].job_id,
+    ensures i == k,
+{
+    assert(m.contains_key(jobs[i].job_id));
+    assert(m.contains_key(jobs[k].job_id));
+}
+
+proof fn lemma_ready_set_after_write(pre: Seq<NodeInfo>, post: Seq<NodeInfo>, m: Map<String, usize>,
+    ready: Set<String>, ready2: Set<String>, n: int)
+    requires
+        ids_wf(pre, m), ready_set_wf(pre, ready, m), one_changed(pre, post, n),
+        is_ready(pre[n].state) == is_ready(post[n].state) ==> ready2 == ready,
+        is_ready(pre[n].state) && !is_ready(post[n].state) ==> ready2 == ready.remove(pre[n].job_id),
+        !is_ready(pre[n].state) && is_ready(post[n].state) ==> ready2 == ready.insert(pre[n].job_id),
+    ensures ready_set_wf(post, ready2, m),
+{
+    assert forall|i: int| 0 <= i < post.len() implies (is_ready(#[trigger] post[i].state) <==> ready2.contains(post[i].job_id)) by {
+        if i != n {
+            assert(post[i] == pre[i]);
+            assert(is_ready(pre[i].state) <==> ready.contains(pre[i].job_id));
+            if pre[i].job_id == pre[n].job_id { lemma_ids_unique(pre, m, i, n); }
+        } else {
+            assert(is_ready(pre[n].state) <==> ready.contains(pre[n].job_id));
+        }
+    }
+    assert forall|k: String| #[trigger] ready2.contains(k) implies m.contains_key(k) by {
+        if k == pre[n].job_id { assert(m.contains_key(pre[n].job_id)); } else { assert(ready.contains(k)); }
+    }
+}
+
+spec fn is_rfc(s: JobState) -> bool {
+    s == JobState::Ephemeral(JobStateEphemeral::FinishedSuccessReadyForCleanup)
+}
+
+proof fn lemma_cleanup_set_after_write(pre: Seq<NodeInfo>, post: Seq<NodeInfo>, m: Map<String, usize>,
+    cl: Set<String>, cl2: Set<String>, n: int)
+    requires
+        ids_wf(pre, m), cleanup_set_wf(pre, cl, m), one_changed(pre, post, n),
+        is_rfc(pre[n].state) == is_rfc(post[n].state) ==> cl2 == cl,
+        is_rfc(pre[n].state) && !is_rfc(post[n].state) ==> cl2 == cl.remove(pre[n].job_id),
+        !is_rfc(pre[n].state) && is_rfc(post[n].state) ==> cl2 == cl.insert(pre[n].job_id),
+    ensures cleanup_set_wf(post, cl2, m),
+{
+    assert forall|i: int| 0 <= i < post.len() implies (is_rfc(#[trigger] post[i].state) <==> cl2.contains(post[i].job_id)) by {
+        if i != n {
+            assert(post[i] == pre[i]);
+            assert(is_rfc(pre[i].state) <==> cl.contains(pre[i].job_id));
+            if pre[i].job_id == pre[n].job_id { lemma_ids_unique(pre, m, i, n); }
+        } else {
+            assert(is_rfc(pre[n].state) <==> cl.contains(pre[n].job_id));
+        }
+    }
+    assert forall|k: String| #[trigger] cl2.contains(k) implies m.contains_key(k) by {
+        if k == pre[n].job_id { assert(m.contains_key(pre[n].job_id)); } else { assert(cl.contains(k)); }
+    }
+}
+
+proof fn lemma_out_after_write(pre: Seq<NodeInfo>, post: Seq<NodeInfo>, n: int)
+    requires out_wf(pre), one_changed(pre, post, n), out_wf_one(post[n]),
+    ensures out_wf(post),
+{
+    assert forall|i: int| 0 <= i < post.len() implies out_wf_one(#[trigger] post[i]) by {
+        if i != n { assert(post[i] == pre[i]); assert(out_wf_one(pre[i])); }
+    }
+}
+
+proof fn lemma_step_after_write(pre: Seq<NodeInfo>, post: Seq<NodeInfo>, n: int)
+    requires one_changed(pre, post, n), lc_le(pre[n].state, post[n].state),
+        pre[n].history_output is Some ==> post[n].history_output == pre[n].history_output,
+    ensures jobs_step(pre, post),
+{
+    assert forall|i: int| 0 <= i < pre.len() implies lc_le(pre[i].state, (#[trigger] post[i]).state) by {
+        if i != n { assert(post[i] == pre[i]); lemma_lc_order(pre[i].state, pre[i].state, pre[i].state); }
+    }
+    assert forall|i: int| 0 <= i < pre.len() implies (#[trigger] post[i]).job_id == pre[i].job_id by {
+        if i != n { assert(post[i] == pre[i]); }
+    }
+    assert forall|i: int| 0 <= i < pre.len() implies (pre[i].history_output is Some ==> (#[trigger] post[i]).history_output == pre[i].history_output) by {
+        if i != n { assert(post[i] == pre[i]); }
+    }
+}
+
+proof fn lemma_all_finished_after_write(pre: Seq<NodeInfo>, post: Seq<NodeInfo>, n: int)
+    requires one_changed(pre, post, n), finished(pre[n].state) ==> finished(post[n].state),
+        forall|i: int| 0 <= i < pre.len() ==> finished(#[trigger] pre[i].state),
+    ensures forall|i: int| 0 <= i < post.len() ==> finished(#[trigger] post[i].state),
+{
+    assert forall|i: int| 0 <= i < post.len() implies finished(#[trigger] post[i].state) by {
+        if i != n { assert(post[i] == pre[i]); }
+    }
+}
